@@ -358,20 +358,29 @@ def check_next(cx, rule, prefix):
         if c.kind == "field" and "continues" in c.place.fields(): sw = (b.term, c)
         if c.kind in ("other", "multi") : pass
     good = False
+    thens = [t for t in body.calls("=then") if "bool" in t.callee.path]
+    if not sw and len(thens) == 1 and not recvs:
+        # `self.continues.then(|| self.recv())`: Some(f()) exactly when the receiver is true
+        t = thens[0]
+        sl = Slice(body, du)
+        rec = t.args[0]
+        reads_flag = rec.place is not None and (("continues" in rec.place.fields()) or any(k == "stmt" for k in []) or any(
+            d.kind == "assign" and any(o.place is not None and "continues" in o.place.fields() for o in d.ops) for l in ref_chain(du, rec.place.l) for k, d in du.value_defs(l) if k == "stmt"))
+        clos = [b for b in cx.mir.bodies("varlink") if b.promoted is None and b.parent == body.path]
+        calls_recv = any(c.calls("=recv") for c in clos)
+        direct = any(k == "call" and o is t for k, o in sl.origins(__import__("vlib.facts", fromlist=["Place"]).Place({"l": 0, "p": []})))
+        good = reads_flag and calls_recv and direct
     if sw and len(recvs) == 1:
         te, fe = bool_edges(*sw)
         nones = [s.bb for s in body.stmts() if s.kind == "assign" and s.lhs.l == 0 and s.rv == "agg" and isinstance(s.agg, dict) and s.agg.get("variant") == "None"]
         good = recvs[0].bb in cfg.after(te) and recvs[0].bb not in cfg.after(fe) and bool(nones) and all(n in cfg.after(fe) and n not in cfg.after(te) for n in nones)
     cx.check(good, rule, prefix + ":next:stops-when-not-continuing", body.sp,
              "Iterator::next does not return None exactly when self.continues is false (and recv() otherwise)", note_ok="continues ? Some(recv()) : None")
-    # more(): continues = true, then send(false, true, false)
-    m = Fn(cx, MC + "more")
-    ca = field_assigns(m.body, "continues", "MethodCall")
-    sends = m.body.calls("=send")
-    flags = [a.cint() if a.is_const else None for a in sends[0].args[1:]] if sends else None
-    good = len(ca) == 1 and ca[0].ops[0].is_const and ca[0].ops[0].cint() == 1 and len(sends) == 1 and flags == [0, 1, 0] and m.cfg.dominates(ca[0].bb, sends[0].bb)
-    cx.check(good, rule, prefix + ":more:arms-the-iterator", m.body.sp, "more() must set continues = true and call send(oneway=false, more=true, upgrade=false) (flags %s)" % flags,
-             note_ok="continues = true; send(false, true, false)")
+    # more() arms the iterator and puts `more` on the wire: decided on the entry point with send() inlined
+    s = entry_summary(cx, "more")
+    good = s["armed"] == {1} and s["flags"] == {("None", "Some(true)", "None")} and not s["limit"]
+    cx.check(good, rule, prefix + ":more:arms-the-iterator", s["body"].sp, "more() must set continues = true and send a request carrying more: true only (continues %s, flags (oneway, more, upgrade) %s)" % (sorted(map(str, s["armed"])), sorted(s["flags"], key=str)),
+             note_ok="continues = true; request carries more: true")
 
 
 def check_slot_writers(cx, rule, prefix):
@@ -391,3 +400,137 @@ def check_slot_writers(cx, rule, prefix):
                  "%s puts the %s back into the connection: only recv() on a final reply (and send() for the oneway writer) may do that — a stream handed back while replies are still outstanding lets another call read them" % (b.path, "/".join(sorted(hits))),
                  note_ok="allowed slot writer")
     cx.floor(rule, "functions assigning Connection.reader/writer", n, 2)
+
+
+def request_builders(body):
+    """sites that build the Request: (site, method operand, parameters operand) for Request::create calls and Request struct literals"""
+    out = []
+    for t in body.calls("=create"):
+        if "Request" in t.callee.path and len(t.args) >= 2: out.append((t, t.args[0], t.args[1]))
+    for s in body.stmts():
+        if s.kind == "assign" and s.rv == "agg" and isinstance(s.agg, dict) and s.agg.get("adt", "").split("::")[-1] == "Request":
+            names = s.agg.get("fields") or []
+            if "method" in names and "parameters" in names: out.append((s, s.ops[names.index("method")], s.ops[names.index("parameters")]))
+    return out
+
+
+# ------------------------------------------------------------------------------------------------
+ENTRY_POINTS = ("call", "more", "oneway", "upgrade")
+FLAGS = ("oneway", "more", "upgrade")
+
+def _show(v):
+    if v is None: return "?"
+    if v[0] == "var" and v[1] == 0: return "None"
+    if v[0] == "var" and v[1] == 1 and len(v) > 2 and v[2] and v[2][0] is not None and v[2][0][0] == "int": return "Some(%s)" % ("true" if v[2][0][1] else "false")
+    return "?"
+
+
+def entry_summary(cx, name):
+    """What one public entry point of MethodCall (call/more/oneway/upgrade) does, with send() and every private helper inlined and the
+    constants it passes propagated: per feasible path that writes the request, the three flags as they are serialised, whether the
+    connection's reader is taken, what is read, where the writer ends up, and whether self.continues is armed."""
+    from vlib.inline import inline
+    from vlib.known_private import KNOWN_PRIVATE
+    from vlib import absval
+    from vlib.cfg import enumerate_paths, ref_base
+    raw = cx.mir.one("varlink", MC + name)
+    def also(cb):
+        if cb.path == MC + "send": return True
+        return cb.public is False and cb.impl_trait is None and (cb.pkg, cb.path) not in KNOWN_PRIVATE
+    body = inline(cx.mir, raw, keep=(), depth=4, also=also)
+    cx.saw(raw)
+    cfg = Cfg(body); du = DefUse(body)
+    limit = []
+    paths = enumerate_paths(cfg, 0, lambda blk: blk.term.kind == "return", du=du, on_limit=lambda: limit.append(1), max_paths=40000)
+    is_req = lambda l: body.ty_is(l, "Request")
+    def is_conn(l): return "Connection" in body.ty(ref_base(du, l)[0]) + body.ty(l)
+    nraw = len(raw.d["blocks"])
+    out = dict(paths=0, writes=0, sent=0, flags=set(), reader_taken=set(), reads=set(), writer_back=set(), writer_kept=set(), armed=set(), undecided=[], limit=bool(limit), body=body, sends_inlined=[p for p, _ in body.inlined if p.endswith("::send")])
+    for p in paths:
+        if p[-1] < 0 or body.blocks[p[-1]].term.kind != "return": continue
+        out["paths"] += 1
+        freq = {}                     # (request local, flag) -> abstract value
+        wrote = False; ser_flags = None; reader_taken = False; reads = set(); back = False; kept = False; armed = None; created = set()
+        flushed = False; failed_after_flush = False
+        for kind, b, x, st in absval.walk(body, du, cfg, p):
+            if kind == "stmt" and x.kind == "assign":
+                s = x
+                if s.lhs.p and s.lhs.fields()[-1:] and s.lhs.fields()[-1] in FLAGS and is_req(ref_base(du, s.lhs.l)[0]) and s.ops:
+                    freq[(ref_base(du, s.lhs.l)[0], s.lhs.fields()[-1])] = absval.operand_value(st, s.ops[0]) if s.rv == "use" else None
+                if s.rv == "agg" and isinstance(s.agg, dict) and s.agg.get("adt", "").split("::")[-1] == "Request" and not s.lhs.p:
+                    names = s.agg.get("fields") or []
+                    for fl in FLAGS:
+                        if fl in names and names.index(fl) < len(s.ops): freq[(s.lhs.l, fl)] = absval.operand_value(st, s.ops[names.index(fl)])
+                if s.lhs.p and s.lhs.fields()[-1:] == ["writer"] and is_conn(s.lhs.l) and "MethodCall" not in body.ty(ref_base(du, s.lhs.l)[0]): back = True
+                if s.lhs.p and s.lhs.fields()[-1:] == ["writer"] and ref_base(du, s.lhs.l)[0] == 1: kept = True
+                if s.lhs.p and s.lhs.fields()[-1:] == ["continues"] and ref_base(du, s.lhs.l)[0] == 1 and s.ops:
+                    v = absval.operand_value(st, s.ops[0]); armed = v[1] if v is not None and v[0] == "int" else "?"
+            elif kind == "term" and x.kind == "call" and not x.callee.indirect:
+                t = x; n = t.callee.name
+                if n == "create" and "Request" in t.callee.path and t.dest is not None:
+                    for fl in FLAGS: freq[(t.dest.l, fl)] = ("var", 0, ())       # Request::create leaves the flags unset (checked separately)
+                if n == "to_string" and "serde_json" in t.callee.path and t.args and t.args[0].place is not None:
+                    r = ref_base(du, t.args[0].place.l)[0]
+                    ser_flags = tuple(_show(freq.get((r, fl))) for fl in FLAGS)
+                if n in ("write_all", "write") and ("io::" in t.callee.resolved or "Write" in (t.callee.trait or "")): wrote = True
+                if n == "flush" and ("io::" in t.callee.resolved or "Write" in (t.callee.trait or "")): flushed = True
+                if n == "from_residual" and flushed and b >= nraw: failed_after_flush = True
+                if n == "take" and "Option" in t.callee.path and t.args and t.args[0].place is not None:
+                    for l in ref_chain(du, t.args[0].place.l):
+                        for k, d in du.value_defs(l):
+                            if k == "stmt" and d.kind == "assign" and d.rplace is not None and d.rplace.fields()[-1:] == ["reader"] and is_conn(d.rplace.l) and "MethodCall" not in body.ty(ref_base(du, d.rplace.l)[0]): reader_taken = True
+                if n in ("recv", "read_until", "read_line", "read_to_end", "fill_buf", "read_exact") or (n == "read" and "io::" in t.callee.resolved): reads.add(n)
+        if not wrote: continue
+        out["writes"] += 1
+        out["flags"].add(ser_flags)
+        out["reader_taken"].add(reader_taken); out["reads"] |= reads; out["armed"].add(armed)
+        if flushed and not failed_after_flush:
+            out["sent"] += 1; out["writer_back"].add(back); out["writer_kept"].add(kept)
+    return out
+
+
+def check_entry_table(cx, rule_oneway, rule_more, prefix):
+    """C04.R2 / C05.R2: the four entry points put exactly their own flag on the wire; only oneway() leaves the connection's reader
+    where it is, reads nothing and hands the writer straight back; more() arms the iterator before sending"""
+    want = {"call": ("None", "None", "None"), "more": ("None", "Some(true)", "None"), "oneway": ("Some(true)", "None", "None"), "upgrade": ("None", "None", "Some(true)")}
+    # Request::create leaves all three flags unset
+    rc = [b for b in cx.mir.bodies("varlink") if b.promoted is None and b.path.endswith("Request::<'a>::create")]
+    if len(rc) != 1: raise AnchorMissing("Request::create")
+    aggs = [s for s in rc[0].stmts() if s.kind == "assign" and s.rv == "agg" and isinstance(s.agg, dict) and s.agg.get("adt", "").split("::")[-1] == "Request"]
+    okc = False
+    if len(aggs) == 1:
+        names = aggs[0].agg.get("fields") or []
+        du0 = DefUse(rc[0])
+        def is_none(o):
+            if o.place is None: return False
+            ds = du0.value_defs(o.place.l)
+            return len(ds) == 1 and ds[0][0] == "stmt" and ds[0][1].rv == "agg" and isinstance(ds[0][1].agg, dict) and ds[0][1].agg.get("variant") == "None"
+        okc = all(fl in names and is_none(aggs[0].ops[names.index(fl)]) for fl in FLAGS)
+    cx.check(okc, rule_oneway, prefix + ":Request::create:flags-unset", rc[0].sp, "Request::create does not leave more/oneway/upgrade unset: every call would carry a flag", note_ok="more, oneway, upgrade = None")
+    for name in ENTRY_POINTS:
+        s = entry_summary(cx, name)
+        rule = rule_more if name == "more" else rule_oneway
+        key = "%s:MethodCall::%s:wire-flags" % (prefix, name)
+        site = s["body"].sp
+        why = []
+        if s["limit"]: why.append("too many paths")
+        if not s["sends_inlined"]: why.append("does not call send()")
+        if not s["writes"]: why.append("no path writes a request")
+        if s["flags"] != {want[name]}: why.append("the request is serialised with (oneway, more, upgrade) = %s, expected %s" % (sorted(s["flags"], key=str), want[name]))
+        cx.check(not why, rule, key, site, "; ".join(why), note_ok="%d writing paths, flags (oneway, more, upgrade) = %s" % (s["writes"], want[name]))
+        if name == "oneway":
+            why = []
+            if s["reader_taken"] != {False}: why.append("the connection's reader is taken although no reply will be read: a later call finds the connection busy or reads a foreign reply")
+            if s["reads"]: why.append("oneway() reads from the stream (%s)" % sorted(s["reads"]))
+            if s["writer_back"] != {True} or s["writer_kept"] != {False}: why.append("the writer is not handed straight back to the connection")
+            cx.check(not why, rule_oneway, prefix + ":MethodCall::oneway:leaves-connection-free", site, "; ".join(why), note_ok="reader untouched, nothing read, conn.writer = Some(w)")
+        else:
+            why = []
+            if s["reader_taken"] != {True}: why.append("the connection's reader is not taken on every path that sends the request")
+            if s["writer_kept"] != {True} or s["writer_back"] != {False}: why.append("the writer is not kept in the call object until the final reply")
+            cx.check(not why, rule_oneway, prefix + ":MethodCall::%s:occupies-connection" % name, site, "; ".join(why), note_ok="reader and writer move into the call object")
+        if name == "more":
+            cx.check(s["armed"] == {1}, rule_more, prefix + ":more:arms-the-iterator", site, "more() does not set self.continues = true on every path that sends the request (%s)" % sorted(map(str, s["armed"])),
+                     note_ok="continues = true; request carries more: true")
+        elif name in ("call", "upgrade", "oneway"):
+            cx.check(s["armed"] <= {None, 0}, rule_more, prefix + ":%s:does-not-arm-the-iterator" % name, site, "%s() sets self.continues" % name, note_ok="continues untouched")
